@@ -1,10 +1,13 @@
 import NemoVerif.Drive.Common
 import NemoVerif.Models.V1Interp
 import NemoVerif.Models.V1Struct
+import NemoVerif.Models.V1Run
+import NemoVerif.Models.V1Mut
+import NemoVerif.Models.V1Ref
 import NemoVerif.Generated.LlmFlowsV1
 
 namespace NemoVerif.Drive.C14
-open Lean NemoVerif.Drive NemoVerif.V1Interp NemoVerif.V1Struct
+open Lean NemoVerif.Drive NemoVerif.V1Interp NemoVerif.V1Struct NemoVerif.V1Run NemoVerif.V1Mut NemoVerif.V1StackFollow
 
 def vOfJson (j : Json) : Except String V :=
   match j with
@@ -200,8 +203,85 @@ def outToJson (p : Prog) : Out → Json
   | .oof => Json.mkObj [("out", "oof")]
   | .bad => Json.mkObj [("out", "bad")]
 
+def reventOfJson (j : Json) : Except String REvent := do
+  let t ← (← j.getObjVal? "e").getStr?
+  match t with
+  | "start" =>
+    match j.getObjVal? "name" with
+    | .ok n => pure (.start (← n.getStr?) (← (← j.getObjVal? "params").getStr?) (optStrJ j "rk"))
+    | _ => pure (.ev .startAction)
+  | _ => pure (.ev (← eventOfJson j))
+
+def eventToJson : Event → Json
+  | .userIntent i => Json.mkObj [("e", "user"), ("i", .str i)]
+  | .botIntent i => Json.mkObj [("e", "bot"), ("i", .str i)]
+  | .actionFinished n ok => Json.mkObj [("e", "fin"), ("name", .str n), ("ok", .bool ok)]
+  | .contextUpdate d => Json.mkObj [("e", "ctx"), ("d", ctxToJson d)]
+  | .startAction => Json.mkObj [("e", "start")]
+  | .hidePrevTurn => Json.mkObj [("e", "hide")]
+  | .other ty ps => Json.mkObj [("e", "other"), ("ty", .str ty), ("props", ctxToJson ps)]
+
+def reventToJson : REvent → Json
+  | .ev e => eventToJson e
+  | .start n p rk => Json.mkObj [("e", "start"), ("name", .str n), ("params", .str p), ("rk", jOptStr rk)]
+
+def actResOfJson (j : Json) : Except String ActRes := do
+  let status := match optStrJ j "status" with
+    | some "failed" => ActStatus.failed
+    | some "notfound" => ActStatus.notFound
+    | _ => ActStatus.success
+  let ret ← match j.getObjVal? "ret" with
+    | .ok v => vOfJson v
+    | _ => pure V.none
+  let cu ← match j.getObjVal? "cu" with
+    | .ok v => ctxOfJson v
+    | _ => pure []
+  let evs ← match j.getObjVal? "events" with
+    | .ok (.arr a) => a.toList.mapM reventOfJson
+    | _ => pure []
+  pure { status, ret, ctxUpd := cu, events := evs }
+
+def melemOfJson (j : Json) : Except String MElem := do
+  pure { el := ← elemOfJson (← j.getObjVal? "el"), label := optStrJ j "label", activeLabel := optStrJ j "active" }
+
 def handle (op : String) (j : Json) : Except String Json := do
   match op with
+  | "follow" =>
+    -- the source-level reference `followAllK` of next_step_is_flow_statement_with_do on every prefix:
+    -- the dialog flow "id"/"prog", the subflow library, the history; null = the reference makes no claim
+    let id ← (← j.getObjVal? "id").getStr?
+    let p ← progOfJson (← j.getObjVal? "prog")
+    let libJ ← (← j.getObjVal? "lib").getArr?
+    let lib ← libJ.toList.mapM fun e => do
+      pure ((← (← e.getObjVal? "name").getStr?), (← progOfJson (← e.getObjVal? "prog")))
+    let hist ← (← (← j.getObjVal? "history").getArr?).toList.mapM eventOfJson
+    let i0 := match p with
+      | .step (.user i) _ => i
+      | _ => ""
+    let outs := (List.range (hist.length + 1)).map fun k =>
+      match followAllK lib id p i0 SLIDE_FUEL { ctx := [], ctr := 0, stk := [], dec := [] } (hist.take k) with
+      | some S => Json.mkObj [("dec", Json.arr (S.dec.map decisionToJson).toArray), ("depth", Json.num (JsonNumber.fromNat S.stk.length))]
+      | none => Json.null
+    pure (Json.mkObj [("res", Json.arr outs.toArray)])
+  | "gen" =>
+    -- one turn of `generate_events`: flows, the events so far, the scripted action results (k-th call of the conversation)
+    let cfgs ← (← (← j.getObjVal? "flows").getArr?).toList.mapM cfgOfJson
+    let evs ← (← (← j.getObjVal? "events").getArr?).toList.mapM reventOfJson
+    let results ← (← (← j.getObjVal? "results").getArr?).toList.mapM actResOfJson
+    match generateEvents cfgs (scripted results) [] evs with
+    | some out => pure (Json.mkObj [("new", Json.arr (out.map reventToJson).toArray)])
+    | none => pure (Json.mkObj [("exc", "oof")])
+  | "slideM" =>
+    let es ← (← (← j.getObjVal? "elems").getArr?).toList.mapM melemOfJson
+    let ctx ← ctxOfJson (← j.getObjVal? "ctx")
+    let head ← (← j.getObjVal? "head").getInt?
+    let (r, code) := slideM SLIDE_FUEL es ⟨ctx, []⟩ head (initPrev (proj es) head) none
+    let marks := Json.arr (code.map fun m => jOptStr m.activeLabel).toArray
+    match r with
+    | .at st h => pure (Json.mkObj [("res", "at"), ("head", jInt h), ("ctx", ctxToJson st.ctx), ("upd", ctxToJson st.upd), ("marks", marks)])
+    | .fin st h => pure (Json.mkObj [("res", "fin"), ("head", jInt h), ("ctx", ctxToJson st.ctx), ("upd", ctxToJson st.upd), ("marks", marks)])
+    | .err => pure (Json.mkObj [("res", "err"), ("marks", marks)])
+    | .oof => pure (Json.mkObj [("res", "oof")])
   | "steps" =>
     let cfgs ← (← (← j.getObjVal? "flows").getArr?).toList.mapM cfgOfJson
     let hist ← (← (← j.getObjVal? "history").getArr?).toList.mapM eventOfJson
